@@ -776,6 +776,9 @@ class DataFrame(_Gap):
     def unstack(self):
         return _Unstacked(self)
 
+    def astype(self, t):
+        return DataFrame([(k, c.astype(t)) for k, c in self._cols], present=self.present, index=self.index.copy())
+
     def groupby(self, by):
         return _FrameGroupBy(self, by)
 
